@@ -32,6 +32,7 @@ type Val struct {
 	Lit                *ast.FuncLit // set when the value is a known function literal
 	Bound              *boundMethod // set when the value is a bound method value / known func
 	GKey, GVal         string       // ghost map sorts
+	Row                string       // spec-only slices: the backing array term itself (no heap cell)
 }
 
 type boundMethod struct {
@@ -70,6 +71,8 @@ type State struct {
 	defers []deferred
 	dead   bool // path condition known false (after panic / assume false)
 	epoch  int  // bumped by every havoc-all, so untouched heap keys are fresh afterwards
+	suffix string // "'" in the second run of a self-composition: names of untouched heap keys
+	tainted bool  // some memory that can hold references has been forgotten (havoc) on this path
 }
 
 func newState() *State {
@@ -86,6 +89,8 @@ func (s *State) clone() *State {
 		defers: append([]deferred(nil), s.defers...),
 		dead:   s.dead,
 		epoch:  s.epoch,
+		suffix: s.suffix,
+		tainted: s.tainted,
 	}
 	for k, v := range s.vars {
 		n.vars[k] = v
@@ -208,6 +213,7 @@ func mergeStates(cond string, a, b *State, nBase int) *State {
 	if b.epoch > r.epoch {
 		r.epoch = b.epoch
 	}
+	r.tainted = a.tainted || b.tainted
 	// allocs: union
 	seen := map[string]bool{}
 	r.allocs = nil
